@@ -13,5 +13,5 @@ HARNESSES = [
 ASSUMPTIONS = ['tier S: one call from an arbitrary 64-bit dsema_value; other threads may replace the value (any 64-bit value) at most twice before the unit\'s atomic accesses',
                'the kernel semaphore (lock.c _dispatch_sema4_*) is replaced by its POSIX contract: signal posts one wake-up, wait consumes one, timedwait either consumes one or reports a timeout (solver chooses)',
                'global conservation (successes <= v + signals, v + S - W permits remain) is the sum of the per-call accounting lemmas; the cross-thread schedule itself is not enumerated here']
-LEVEL_TEXT = 'placeholder'
-LEVEL_NOTE = 'placeholder'
+LEVEL_TEXT = 'Tier S permit accounting of one call from all 2^64 values, all timeouts, arbitrary kernel answers and <=2 interfering signals/waits: signal adds one permit and posts exactly when the incremented value shows a waiter; a successful wait takes one permit and consumes exactly one kernel wake-up iff it went through the slow path; a timed-out wait has net effect zero, undoes only from a negative value, consumes no wake-up and only after the kernel reported the timeout; FOREVER never times out. The global conservation law is the sum of these per-call lemmas.'
+LEVEL_NOTE = 'The kernel semaphore is replaced by its POSIX contract; cross-thread schedules are not enumerated (DESIGN: native-thread kernel measured in the design phase is not part of the registered check).'
